@@ -85,8 +85,13 @@ func (n *AbsfsNFS) VerifRateLimiter() *RateLimiter { return n.rateLimiter }
 func (n *AbsfsNFS) VerifExportServer() *Server     { return n.exportServer }
 
 // VerifHandlePath returns the path of the node a wire handle currently maps to.
+// VerifHandlePath reads the handle table itself (not through Get, which is
+// code under test): the path a handle value is tracked for.
 func (n *AbsfsNFS) VerifHandlePath(handle uint64) (string, bool) {
-	f, ok := n.fileMap.Get(handle)
+	fm := n.fileMap
+	fm.RLock()
+	f, ok := fm.handles[handle]
+	fm.RUnlock()
 	if !ok {
 		return "", false
 	}
@@ -98,11 +103,7 @@ func (n *AbsfsNFS) VerifHandlePath(handle uint64) (string, bool) {
 }
 
 func (h *NFSProcedureHandler) VerifLookupNodePath(handle uint64) (string, bool) {
-	node, ok := h.lookupNode(handle)
-	if !ok {
-		return "", false
-	}
-	return node.path, true
+	return h.server.handler.VerifHandlePath(handle)
 }
 
 // ---- FileHandleMap ----
